@@ -134,6 +134,16 @@ claim("C19",
       "the listed deviation enabled for directions on which a send was abandoned.",
       TRUST + "kernel behaviour is sampled, not enumerated; open finding C19-abandoned-send-resent-from-start",
       "TLA+ model checking (TLC) of the transport composition + TLC trace validation of real-socket executions", "4/C19")
+claim("C03",
+      "JsonSer.tla specifies the compact encoding of the serde data model (Encode, EncodeKey, the key classes, "
+      "EscapeOf over code points). TLC enumerates value trees, checks the text is balanced and exports them; each "
+      "is instantiated as a dynamic serde value and encoded by zlink's serializer for every buffer length and "
+      "through send_error at several fill levels. TLC validates text = Encode(tree), refusal exactly for "
+      "non-string-like keys, identity with serde_json, independence of free space, and EscapeOf over the "
+      "run-length-encoded exhaustive sweep of all Unicode scalars (as string, key, char).",
+      TRUST + "float and wide-integer atoms are compared with serde_json inside the harness (TLC has no floats)",
+      "TLA+ specification of the encoding (TLC-enumerated trees) + TLC validation of encodings and exhaustive scalar sweeps",
+      "4/C03")
 
 
 def main():
